@@ -77,7 +77,7 @@ theorem handleOk_forget {w w' : World} {k : SlabID} (F : ForgetFrame w w' k) {z 
 
 /-! ### liveness across an operation -/
 
-theorem SigFrame.live {w w' : World} {p : SlabID} (h : SigFrame w w' p) (hp : (w'.cont? p).isSome) {z : SlabID}
+theorem SigFrame.live_at {w w' : World} {p : SlabID} (h : SigFrame w w' p) (hp : (w'.cont? p).isSome) {z : SlabID}
     (hz : (w.cont? z).isSome) : (w'.cont? z).isSome := by
   by_cases hzp : z = p
   · subst hzp; exact hp
@@ -137,6 +137,19 @@ theorem absTab_eq_of_conts {w w' : World} (h : ∀ z, w'.cont? z = w.cont? z) : 
 
 theorem sig_arr (a : Arr) : (Cont.arr a).sig = (true, a.toList.map (fun e => (none, e.pay))) := rfl
 theorem sig_map (m : OMap 3) : (Cont.map m).sig = (false, m.toList.map (fun p => (some p.1, p.2.pay))) := rfl
+
+/-- histories compose -/
+theorem Run.append {D : SlabID → DigestFn 4} {s1 s2 s3 : HState} {t1 t2 : List (WOp × WObs)}
+    (h1 : Run D s1 t1 s2) (h2 : Run D s2 t2 s3) : Run D s1 (t1 ++ t2) s3 := by
+  induction h1 with
+  | nil => exact h2
+  | cons hs _ ih => exact Run.cons hs (ih h2)
+
+theorem SpecRun.append {A1 A2 A3 : Tab} {t1 t2 : List (WOp × WObs)}
+    (h1 : SpecRun A1 t1 A2) (h2 : SpecRun A2 t2 A3) : SpecRun A1 (t1 ++ t2) A3 := by
+  induction h1 with
+  | nil => exact h2
+  | cons hs _ ih => exact SpecRun.cons hs (ih h2)
 
 end World
 end Atree
